@@ -22,14 +22,14 @@ TITLE = 'Even-point insertion returns the documented candidates, height-filtered
 RULE = ('cases = (curve, reduction, knee subset, tx, ty, extremes), full product below the bound; non-trivial = at least one evenly spaced point was inserted '
         '(some retained segment / knee gap qualified)')
 ASSUMPTIONS = ['curves have non-constant x and y', 'w within 1e-9 of 2tx or h within 1e-9 of ty are ambiguous; ceil(w/2tx) is ambiguous only when five IEEE evaluation orders and the exact rational quotient disagree']
-BOUNDS = {'quick': {'curves': 'A12 n=3,4 complete; G12Y013 n=5 complete; G12Y013 n=4 and Y013 n=5 re-embedded with y*2^-40, x*2^-40, (x,y)*2^30', 'reductions': 'all 2^(n-2)', 'knee subsets': 'size<=2 positions (even), size 1..2 (knees-as-markers)', '(tx,ty)': 3, 'extremes': 2},
+BOUNDS = {'quick': {'curves': 'A12 n=3,4 complete; G12Y013 n=5 complete; G12Y013 n=4 and Y013 n=5 re-embedded with y*2^-40, x*2^-40, (x,y)*2^30', 'reductions': 'all 2^(n-2)', 'knee subsets': 'size<=2 positions (even), size 1..2 (knees-as-markers)', '(tx,ty)': '4 incl. the dyadic pair (0.25,0.25) for exact threshold ties', 'extremes': 2},
           'thorough': {'curves': 'A n<=4, A12 n=5, A1 n=6', 'reductions': 'all', 'knee subsets': 'all positions (even), size 1..3 (markers)'}}
 TECHNIQUE = 'bounded-exhaustive enumeration of curves x all reductions x knee subsets x thresholds on the real functions against a reference that enumerates every admissible output under threshold ambiguity'
 LEVEL_TEXT = ('Model checking: every reduction and knee subset of every small non-flat curve, both variants, both settings of extremes; the output must be one of the admissible '
               'outputs of the reference recomputation of the documented rule, and every index must be valid.')
 LEVEL_NOTE = 'Bounded by n and alphabet.'
 
-TXY = [(0.05, 0.05), (0.2, 0.3), (0.3, 0.1)]
+TXY = [(0.05, 0.05), (0.2, 0.3), (0.3, 0.1), (0.25, 0.25)]
 
 
 def units(tier, seed):
@@ -62,11 +62,19 @@ def seg_options(xs, ys, L, R, dx, dy, tx, ty):
 
     def near(a, b):
         return abs(a - b) <= 1e-9 * max(1.0, abs(b))
-    qual = []
-    if near(w, thr) or near(h, ty):
-        qual = [False, True] if (w > thr or near(w, thr)) and (h > ty or near(h, ty)) else [False]
-    else:
-        qual = [w > thr and h > ty]
+    # strict comparisons w > 2tx and h > ty; a value within 1e-9 of its threshold is ambiguous unless the float
+    # AND the exact rational values both sit exactly on the threshold (then "not greater" is decisive)
+    wq = abs(Fraction(xs[R]) - Fraction(xs[L])) / Fraction(dx)
+    hq = abs(Fraction(ys[R]) - Fraction(ys[L])) / Fraction(dy)
+
+    def verdict(vf, vq, tf):
+        if vf == tf and vq == Fraction(tf):
+            return [False]
+        if near(vf, tf):
+            return [False, True]
+        return [vf > tf]
+    vw, vh = verdict(w, wq, thr), verdict(h, hq, ty)
+    qual = sorted(set(a and b for a in vw for b in vh))
     out = []
     for q in qual:
         if not q:
